@@ -83,3 +83,49 @@ def run_polyfit(pid, tier, replay=None):
     with open(files[0]) as fh:
         ck.sample(json.loads(fh.readline()))
     return ck.finish(exhaustive=not ck.violations)
+
+
+def run_notefreq(pid, tier, replay=None):
+    """X04: the note frequency table (pure data): every reference pitch compiled and printed, relations judged by TLC"""
+    import subprocess
+    ck = Check(pid, tier, "model_checking")
+    sc = ck.scratch
+    hdr = os.path.join(vlib.REPO, "include", "a", "notefreqs.h")
+    text = open(hdr, errors="replace").read()
+    names = []
+    for m in re.finditer(r"#define\s+A_NOTEFREQ_FREQ_(\w+)\s", text):
+        if m.group(1) not in names:
+            names.append(m.group(1))
+    base = {"C": 0, "D": 2, "E": 4, "F": 5, "G": 7, "A": 9, "B": 11}
+    notes = []
+    for nm in names:
+        mm = re.match(r"^([A-G])(_|b)?(\d+)$", nm)
+        if mm:
+            notes.append((nm, 12 * int(mm.group(3)) + base[mm.group(1)] + (1 if mm.group(2) == "_" else -1 if mm.group(2) == "b" else 0)))
+    pitches = sorted(set(int(x) for x in re.findall(r"#(?:el)?if\s+A_NOTEFREQ_A4\s*==\s*(\d+)", text)))
+    if len(notes) < 100 or len(pitches) < 2:
+        raise Broken("note table not recognised: %d note names, pitches %s" % (len(notes), pitches))
+    src = sc.path("nf.c")
+    with open(src, "w") as fh:
+        fh.write('#include <stdio.h>\n#include <math.h>\n#include "a/notefreqs.h"\nint main(void)\n{\n    printf("{\\"a4\\":%d,\\"notes\\":[", VERIF_A4);\n')
+        for i, (nm, semi) in enumerate(notes):
+            fh.write('    printf("%s{\\"semi\\":%d,\\"c\\":%%ld,\\"div\\":%%ld}", lround((double)(A_NOTEFREQ_FREQ_%s) * 100), (long)(A_NOTEFREQ_%s));\n' % ("," if i else "", semi, nm, nm))
+        fh.write('    printf("]}\\n");\n    return 0;\n}\n')
+    out = sc.path("nf.ndjson")
+    with open(out, "w") as fo:
+        for a4 in pitches:
+            exe = sc.path("nf_%d" % a4)
+            p = subprocess.run(["gcc", "-O0", "-w", "-I" + os.path.join(vlib.REPO, "include"), "-DA_NOTEFREQ_A4=%d" % a4, "-DVERIF_A4=%d" % a4, "-DA_NOTEFREQ_FREQ=1000000", src, "-o", exe, "-lm"], stdout=subprocess.PIPE, stderr=subprocess.STDOUT, text=True)
+            if p.returncode != 0:
+                ck.violation("build:notefreq:%d" % a4, {"what": "the header does not compile with this reference pitch (a note macro is missing or malformed)", "output": p.stdout[-1200:]})
+                continue
+            r = subprocess.run([exe], stdout=subprocess.PIPE, text=True)
+            fo.write(r.stdout)
+    nev, bad = vlib.validate_collect(os.path.join(SPECDIR, "NoteFreq.tla"), os.path.join(SPECDIR, "NoteFreq.cfg"), [out], sc)
+    for f, idx, ev in bad:
+        ck.violation("trace:notefreq:%s" % ev.get("a4"), {"what": "TLC rejected the table of this reference pitch: not rising, names of one key differ, A4 off, an octave not doubling, or a fifth / third off", "a4": ev.get("a4")})
+    ck.cov["evaluations"] = len(pitches) * len(notes); ck.cov["traces_validated_against_impl"] = nev; ck.cov["distinct_nontrivial"] = len(pitches)
+    ck.cov["rule"] = "one case = one reference pitch (the header compiled with it; %d note macros printed in 1/100 Hz)" % len(notes)
+    ck.assumptions.append("extension beyond the listed properties: the note table is data; judged are the relations the equal-tempered scale fixes without the twelfth root of two")
+    ck.part("table", pitches=pitches, note_macros=len(notes))
+    return ck.finish(exhaustive=not ck.violations)
